@@ -10,7 +10,9 @@
  *   pexact r|d NMAX    the same calls with an EXACT-size heap allocation in a forked child under ASan; answer
  *                      `none` or `crash n:kind,n:kind,..[,more]` (after a report the sweep resumes at n+1; it
  *                      stops after 48 reports)
- *   pranges s|p        hostlist_shift_range / hostlist_pop_range on a copy until NULL: HEX|HEX|.. or none
+ *   pnrprobe           which form of _iterator_advance_range (F14-NEXTRANGE): fixed | unchanged
+ *   pranges s|p|n|N    hostlist_shift_range / hostlist_pop_range (on a copy) / hostlist_next_range (iterator) until NULL:
+ *                      HEX|HEX|.. or none
  *   pback r|d          hostlist_create(reference text) compared host by host (the hosts the range records of
  *                      both lists denote) with the current list:  same COUNT | diff I HEXA HEXB | null:ERRNO:FATAL | no-reference
  */
@@ -294,16 +296,89 @@ static void p_ranges(hostlist_t hl, int which)
     hostlist_destroy(c);
 }
 
+/* hostlist_next_range on a fresh iterator over the list itself until NULL (buf[MAXHOSTRANGELEN+1] on the stack).
+ * In the UNREPAIRED _iterator_advance_range the call that returns NULL reads hl->hr[hl->nranges]; when the array is
+ * full (nranges == size) that is a read past the heap block (finding F14-NEXTRANGE).  Which form the code under test
+ * has is probed by `pnrprobe`; the check then asks for
+ *   pranges n   (unrepaired code) when the array is full the final call is NOT made - the groups are counted
+ *               beforehand - and the answer ends in `!end-read-past-hr` instead
+ *   pranges N   (repaired code) the iteration is run to its NULL on every list, full arrays included */
+static void p_next_ranges(hostlist_t hl, int always)
+{
+    hostlist_iterator_t it = hostlist_iterator_create(hl);
+    int k = 0, groups = 0, i, j;
+    char *s;
+    for (i = 0; i < hl->nranges; i = j) {
+        groups++;
+        j = i;
+        while (++j < hl->nranges && hostrange_within_range(hl->hr[i], hl->hr[j])) {;}
+    }
+    for (k = 0; k < groups; k++) {
+        s = hostlist_next_range(it);
+        if (k) putchar('|');
+        if (!s) { printf("!null"); break; }
+        puthex(stdout, s);
+        hl_free(s);
+    }
+    if (!groups) printf("none");
+    if (always || hl->nranges < hl->size) {
+        s = hostlist_next_range(it);
+        if (s) { printf("!extra"); hl_free(s); }
+        if (always) {                                /* and once more after the end (the unrepaired code would */
+            s = hostlist_next_range(it);             /* read hr[nranges+1] then)                               */
+            if (s) { printf("!extra2"); hl_free(s); }
+        }
+    } else
+        printf("!end-read-past-hr");
+    putchar('\n');
+    hostlist_iterator_destroy(it);
+}
+
+/* which form of _iterator_advance_range does the code under test have?  A forked child iterates a list whose record
+ * array is full (HOSTLIST_CHUNK distinct names) with hostlist_next_range until NULL: `fixed` when it survives,
+ * `unchanged` when the sanitizer reports the read past the array */
+static void p_nextrange_probe(void)
+{
+    int status = 0, i;
+    pid_t pid;
+    fflush(stdout);
+    pid = fork();
+    if (pid < 0) { printf("crash harness-fork\n"); return; }
+    if (pid == 0) {
+        hostlist_t h = hostlist_create("");
+        hostlist_iterator_t it;
+        char name[32], *s;
+        struct rlimit rl = { 0, 0 };
+        int fd = open("/dev/null", O_WRONLY);
+        setrlimit(RLIMIT_CORE, &rl);
+        if (fd >= 0) dup2(fd, 2);
+        for (i = 0; h->nranges < h->size && i < 100000; i++) {
+            snprintf(name, sizeof(name), "p%dx", i);
+            hostlist_push_host(h, name);
+        }
+        if (h->nranges != h->size) _exit(3);
+        it = hostlist_iterator_create(h);
+        while ((s = hostlist_next_range(it)) != NULL) hl_free(s);
+        _exit(0);
+    }
+    waitpid(pid, &status, 0);
+    if (WIFEXITED(status) && WEXITSTATUS(status) == 0) printf("fixed\n");
+    else if (WIFEXITED(status) && WEXITSTATUS(status) == 3) printf("probe-failed\n");
+    else printf("unchanged\n");
+}
+
 /* returns 1 when the op was one of ours */
 static int print_op(hostlist_t hl, const char *op, const char *line)
 {
     char k[8] = "", nm[64] = "";
     if (strcmp(op, "ptext") && strcmp(op, "psweep") && strcmp(op, "pexact") && strcmp(op, "pback")
-        && strcmp(op, "pranges"))
+        && strcmp(op, "pranges") && strcmp(op, "pnrprobe"))
         return 0;
+    if (!strcmp(op, "pnrprobe")) { p_nextrange_probe(); return 1; }
     sscanf(line, "%*s %7s %63s", k, nm);
     if (!strcmp(op, "pranges")) {
-        if (k[0] != 's' && k[0] != 'p') printf("bad-arg\n"); else p_ranges(hl, k[0]);
+        if (k[0] == 'n' || k[0] == 'N') p_next_ranges(hl, k[0] == 'N');
+        else if (k[0] != 's' && k[0] != 'p') printf("bad-arg\n"); else p_ranges(hl, k[0]);
         return 1;
     }
     if (k[0] != 'r' && k[0] != 'd') { printf("bad-arg\n"); return 1; }
